@@ -28,6 +28,16 @@ INT_POOL = ["0", "1", "-1", "42", "2147483647", "2147483648", "-2147483648", "-2
 FLT_POOL = ["1.5", "-0.25", "3.25", "0.5", "1e3", "2.5E-3", "-1.25e+2", "100.0", "0.0", "-0.0", "6.02e23", "1e-7"]
 
 
+NONFINITE = []       # literals of the NaN / Infinity dialect options, filled in by use_options()
+
+
+def use_options(o):
+    """Makes the value generator use the number literals the build's options add to the dialect."""
+    global NONFINITE
+    NONFINITE = (["NaN", "-NaN", "+NaN"] if o.get("nan") else []) + \
+                (["Infinity", "-Infinity", "inf", "+inf", "-inf"] if o.get("inf") else [])
+
+
 def rand_value(rng, depth=0, maxdepth=3):
     k = rng.randrange(9 if depth < maxdepth else 6)
     if k == 0:
@@ -37,6 +47,8 @@ def rand_value(rng, depth=0, maxdepth=3):
     if k == 2:
         return node("#", sbytes(rng.choice(INT_POOL)))
     if k == 3:
+        if NONFINITE and rng.random() < 0.3:
+            return node("#", sbytes(rng.choice(NONFINITE)))
         return node("#", sbytes(rng.choice(FLT_POOL)))
     if k in (4, 5):
         return node("s", rng.choice(STR_POOL))
@@ -202,6 +214,7 @@ def nesting(v):
 def gen_valid(rng, o, n, want_out):
     """Valid RFC 8259 texts; want_out[i] is the value each text means."""
     global COMMENT_P
+    use_options(o)
     out = []
     for _ in range(n):
         COMMENT_P = 0.2 if o["comments"] and rng.random() < 0.3 else 0.0
@@ -217,6 +230,7 @@ def gen_valid(rng, o, n, want_out):
 
 def gen_mutants(rng, o, n):
     global COMMENT_P
+    use_options(o)
     out = []
     for _ in range(n):
         COMMENT_P = 0.2 if o["comments"] and rng.random() < 0.3 else 0.0
@@ -368,6 +382,7 @@ def gen_escape_offsets(o, maxoff=140):
 
 
 def gen_filtered(rng, o, n):
+    use_options(o)
     out = []
     for _ in range(n):
         v = rand_value(rng)
